@@ -1,6 +1,222 @@
-(* placeholder while the correspondence is being developed; replaced below *)
+(* Props/C14.v -- C14: a displayed signature is the signature that was written.
+   Only statements closed by `exact`; proofs live in Proofs/SigProofs.v.
+   Model: Model/Sig.v (astbuilder._handleFunctionDef, _annotations_from_function, astutils.unstring_annotation,
+          pages.format_signature / format_function_def / format_overloads).
+   CPython: Spec/SigStr.v (inspect.Signature.__init__ / __str__, the `def` parameter grammar as lex + read_sig,
+          how the parser stores defaults: src_sig, src_defaults, src_kw_defaults, params_of_src;
+          unstringing as the relation `unstrung`).
+   Default values and annotation expressions are opaque here; their text is C15. *)
 From Coq Require Import ZArith NArith List Bool.
-From PydoctorVerif Require Import Base.Sexp Spec.SigStr Model.Sig.
+From PydoctorVerif Require Import Base.Sexp Spec.SigStr Model.Sig Proofs.SigProofs.
 Import ListNotations.
-Example C14_placeholder : sig_str (mkSig [] None) = [PC 40%N; PC 41%N].
-Proof. reflexivity. Qed.
+
+(* ---- defaults are where the source has them --------------------------------------------------------- *)
+(* get_default: for every index enumerate() can produce, under the parser's invariant |defaults| <= n, the
+   assert holds, the subscript is in range and the result is the right-aligned default:
+   aligned_defaults n d = [None] * (n - |d|) ++ map Some d. *)
+Theorem C14_get_default_aligned :
+  forall (n : nat) (d : list expr) (i : nat),
+    (length d <= n)%nat -> (i < n)%nat ->
+    get_default (Z.of_nat n) (Z.of_nat n - zlen d) d (Z.of_nat i) = Ok (nth i (aligned_defaults n d) None).
+Proof. exact get_default_aligned. Qed.
+
+(* For every ast.arguments record the parser can produce, build_params (the five loops of
+   _handleFunctionDef) succeeds, keeps names and order, and gives parameter k exactly the default the
+   record means for it: the positional ones right-aligned, the keyword-only ones one by one, none for
+   *args / **kwargs. *)
+Theorem C14_default_alignment :
+  forall (ann : dict) (a : ast_args),
+    wf_args a ->
+    exists ps,
+      build_params ann a = Ok ps /\
+      map pname ps = map a_name (all_args a) /\
+      map pdefault ps =
+      aligned_defaults (length (posonlyargs a) + length (args a)) (defaults a)
+      ++ opt_none (vararg a) ++ kw_defaults a ++ opt_none (kwarg a).
+Proof.
+  intros ann a H. exists (expected_params ann a).
+  exact (conj (build_params_expected ann a H)
+              (conj (expected_params_names ann a H) (expected_params_defaults ann a H))).
+Qed.
+
+(* get_default's `assert 0 <= index < num_pos_args` and `defaults[index]` cannot fail for ANY record, well
+   formed or not; the only assertion that can fire is len(kwonlyargs) == len(kw_defaults). *)
+Theorem C14_get_default_never_fails :
+  forall (ann : dict) (a : ast_args),
+    build_params ann a = Raise KwAssertionError \/ exists ps, build_params ann a = Ok ps.
+Proof. exact build_params_no_assert. Qed.
+
+(* ---- kinds ------------------------------------------------------------------------------------------ *)
+(* Kinds come out as POSITIONAL_ONLY*, POSITIONAL_OR_KEYWORD*, VAR_POSITIONAL?, KEYWORD_ONLY*, VAR_KEYWORD?,
+   and inspect.Signature(...) rejects the list only for a duplicate name (then `Signature()` + a report). *)
+Theorem C14_kinds_order :
+  forall (ann : dict) (a : ast_args) (ps : list param),
+    wf_args a -> build_params ann a = Ok ps ->
+    map pkind ps =
+    repeat POSITIONAL_ONLY (length (posonlyargs a)) ++ repeat POSITIONAL_OR_KEYWORD (length (args a))
+    ++ opt_kind VAR_POSITIONAL (vararg a) ++ repeat KEYWORD_ONLY (length (kwonlyargs a))
+    ++ opt_kind VAR_KEYWORD (kwarg a)
+    /\ sig_validate POSITIONAL_ONLY false [] ps =
+       if dup_free [] (map a_name (all_args a)) then None else Some DuplicateName.
+Proof.
+  intros ann a ps H E. rewrite (build_params_expected ann a H) in E. injection E as <-.
+  exact (conj (expected_params_kinds ann a H) (expected_params_valid ann a H)).
+Qed.
+
+Theorem C14_dup_free_is_NoDup : forall names, dup_free [] names = true <-> NoDup names.
+Proof. exact dup_free_nil. Qed.
+
+(* ---- the round trip --------------------------------------------------------------------------------- *)
+(* CPython side only: any parameter list in Signature order (five segments), printed by Signature.__str__,
+   lexed and read by the def grammar, gives back the same parameters: names, order, kinds (so the `/` and
+   `*` separators are where they must be), defaults and annotations on the parameters that have them,
+   and the return annotation. *)
+Theorem C14_sig_str_roundtrip :
+  forall po pk va ko vk ret sd,
+    seg_ok POSITIONAL_ONLY po -> seg_ok POSITIONAL_OR_KEYWORD pk -> var_ok VAR_POSITIONAL va ->
+    seg_ok KEYWORD_ONLY ko -> var_ok VAR_KEYWORD vk -> pmono false (po ++ pk) = Some sd ->
+    Forall (fun p => name_ok (pname p)) (po ++ pk ++ va ++ ko ++ vk) ->
+    read_sig (lex LS0 (sig_str (mkSig (po ++ pk ++ va ++ ko ++ vk) ret))) =
+    Some (mkSig (po ++ pk ++ va ++ ko ++ vk) ret).
+Proof. exact sig_str_roundtrip. Qed.
+
+(* From the definition as written (src_sig: every parameter with its own default/annotation) through the
+   record the parser builds (to_ast: right-aligned `defaults`, per-parameter `kw_defaults`) and pydoctor:
+   the Signature holds exactly the written parameters (params_of_src) with each annotation replaced by
+   what unstring_annotation shows for it, the return annotation likewise and dropped when (after
+   unstringing) it is the constant None -- shown_sig s -- one report per annotation that cannot be
+   unstrung; and the text format_signature displays reads back as exactly that. *)
+Theorem C14_roundtrip :
+  forall (s : src_sig) (ov asy : bool),
+    valid_src s -> NoDup (src_names s) -> Forall name_ok (src_names s) -> ~ In return_key (src_names s) ->
+    handle_signature (mkDef (to_ast s) (s_returns s) ov asy) = Ok (shown_sig s, annotation_reports s)
+    /\ read_sig (lex LS0 (format_signature (Some (shown_sig s)))) = Some (shown_sig s).
+Proof.
+  intros s ov asy Hv Hnd Hn Hr.
+  exact (conj (handle_signature_src s ov asy Hv Hnd Hr) (displayed_roundtrip s Hv Hn)).
+Qed.
+
+(* ---- string annotations ----------------------------------------------------------------------------- *)
+(* unstring_annotation e returns e' without reporting iff e' is e with every string constant replaced by
+   the expression it spells, recursively, except inside Literal[...] (Spec.SigStr.unstrung); it reports iff
+   some string that would have to be replaced spells no expression (bad_string), and then hands back the
+   original object as the in-place transformer left it (Model.Sig.after). *)
+Theorem C14_unstring :
+  forall e,
+    (forall e', unstring_annotation e = (e', false) <-> unstrung e e') /\
+    (snd (unstring_annotation e) = true <-> bad_string e) /\
+    (bad_string e -> unstring_annotation e = (after e, true)).
+Proof. exact unstring_annotation_spec. Qed.
+
+(* ---- overloads -------------------------------------------------------------------------------------- *)
+(* @overload definitions followed by the implementation: the Function keeps one Signature per overload, each
+   computed from its own definition (sig_of), in source order; the entry shows one definition line per
+   overload and the implementation's signature is not shown. *)
+Theorem C14_overloads :
+  forall name ovs prim,
+    Forall kw_wf ovs -> kw_wf prim -> Forall (fun d => fd_overload d = true) ovs -> fd_overload prim = false ->
+    ovs <> [] ->
+    exists f,
+      handle_defs None (ovs ++ [prim]) = Ok (Some f, flat_map reports_of (ovs ++ [prim])) /\
+      fn_overloads f = map sig_of ovs /\ fn_signature f = Some (sig_of prim) /\
+      displayed_defs name f =
+      map (fun d => format_function_def name (fd_async prim) false (Some (sig_of d))) ovs.
+Proof. exact overloads_then_primary. Qed.
+
+(* only overloads (stub files) *)
+Theorem C14_overloads_only :
+  forall name ovs,
+    Forall kw_wf ovs -> Forall (fun d => fd_overload d = true) ovs -> ovs <> [] ->
+    exists f,
+      handle_defs None ovs = Ok (Some f, flat_map reports_of ovs) /\
+      fn_overloads f = map sig_of ovs /\ fn_signature f = None /\
+      displayed_defs name f = map (fun d => format_function_def name (fn_async f) false (Some (sig_of d))) ovs.
+Proof. exact overloads_only. Qed.
+
+(* no overloads: the definition itself is shown *)
+Theorem C14_no_overloads :
+  forall name prim,
+    kw_wf prim -> fd_overload prim = false ->
+    handle_defs None [prim] = Ok (Some (mkFun (Some (sig_of prim)) [] (fd_async prim)), reports_of prim ++ []) /\
+    displayed_defs name (mkFun (Some (sig_of prim)) [] (fd_async prim)) =
+    [format_function_def name (fd_async prim) false (Some (sig_of prim))].
+Proof. exact primary_alone. Qed.
+
+(* ---- non-vacuity and witnesses ---------------------------------------------------------------------- *)
+(*  def f(a, b: "int" = D1, /, c=D2, *args, k: "1 +" = D3, **kw) -> "None": ...   (names are code points) *)
+Definition w_D (n : N) : expr := ENode n [].
+Definition w_src : src_sig :=
+  mkSrc [mkSparam [97%N] None None; mkSparam [98%N] (Some (EStr 1 (Some (EName [105; 110; 116]%N)))) (Some (w_D 1))]
+        [mkSparam [99%N] None (Some (w_D 2))]
+        (Some (mkSvar [97; 114; 103; 115]%N None))
+        [mkSparam [107%N] (Some (EStr 2 None)) (Some (w_D 3))]
+        (Some (mkSvar [107; 119]%N None))
+        (Some (EStr 3 (Some ENoneLit))).
+
+Example C14_roundtrip_hypotheses_satisfiable :
+  valid_src w_src /\ NoDup (src_names w_src) /\ Forall name_ok (src_names w_src) /\ ~ In return_key (src_names w_src)
+  /\ wf_args (to_ast w_src)
+  /\ defaults (to_ast w_src) = [w_D 1; w_D 2]
+  /\ shown_sig w_src =
+     mkSig [mkParam [97%N] POSITIONAL_ONLY None None;
+            mkParam [98%N] POSITIONAL_ONLY (Some (w_D 1)) (Some (EName [105; 110; 116]%N));
+            mkParam [99%N] POSITIONAL_OR_KEYWORD (Some (w_D 2)) None;
+            mkParam [97; 114; 103; 115]%N VAR_POSITIONAL None None;
+            mkParam [107%N] KEYWORD_ONLY (Some (w_D 3)) (Some (EStr 2 None));
+            mkParam [107; 119]%N VAR_KEYWORD None None] None
+  /\ annotation_reports w_src = [SyntaxErrorInAnnotation].
+Proof.
+  split; [reflexivity|].
+  split; [vm_compute; repeat constructor; cbn; intuition discriminate|].
+  split; [vm_compute; repeat constructor; discriminate|].
+  split; [vm_compute; intuition discriminate|].
+  split; [vm_compute; split; auto|].
+  split; [reflexivity|].
+  split; vm_compute; reflexivity.
+Qed.
+
+(* the displayed text of the witness: (a, b: <int> = <D1>, /, c=<D2>, *args, k: <'1 +'> = <D3>, **kw)  *)
+Example C14_witness_text :
+  format_signature (Some (shown_sig w_src)) =
+  [PC 40; PC 97; PC 44; PC 32; PC 98; PC 58; PC 32; PE (EName [105; 110; 116]); PC 32; PC 61; PC 32; PE (w_D 1);
+   PC 44; PC 32; PC 47; PC 44; PC 32; PC 99; PC 61; PE (w_D 2); PC 44; PC 32; PC 42; PC 97; PC 114; PC 103; PC 115;
+   PC 44; PC 32; PC 107; PC 58; PC 32; PE (EStr 2 None); PC 32; PC 61; PC 32; PE (w_D 3); PC 44; PC 32;
+   PC 42; PC 42; PC 107; PC 119; PC 41]%N.
+Proof. vm_compute. reflexivity. Qed.
+
+(* The NoDup hypothesis of C14_roundtrip is needed: `def f(a, a)` is accepted by ast.parse (the duplicate is
+   only rejected when compiling), Signature(...) raises ValueError and pydoctor shows `()` with a report.
+   Such a definition is not valid Python, so the property does not speak about it. *)
+Definition w_dup : funcdef :=
+  mkDef (mkArgs [] [mkArg [97%N] None; mkArg [97%N] None] None [] [] None []) None false false.
+Example C14_duplicate_names_refuted :
+  handle_signature w_dup = Ok (mkSig [] None, [InvalidParams DuplicateName])
+  /\ format_signature (Some (mkSig [] None)) = [PC 40; PC 41]%N.
+Proof. split; vm_compute; reflexivity. Qed.
+
+(* hypotheses of C14_overloads are satisfiable: two overloads and an implementation *)
+Definition w_ov1 : funcdef := mkDef (mkArgs [] [mkArg [97%N] (Some (EName [105; 110; 116]%N))] None [] [] None []) None true false.
+Definition w_ov2 : funcdef := mkDef (mkArgs [mkArg [97%N] None] [] None [] [] None [w_D 1]) (Some (EName [115]%N)) true false.
+Definition w_impl : funcdef := mkDef (mkArgs [] [mkArg [97%N] None] None [] [] None []) None false false.
+Example C14_overloads_hypotheses_satisfiable :
+  Forall kw_wf [w_ov1; w_ov2] /\ kw_wf w_impl /\
+  Forall (fun d => fd_overload d = true) [w_ov1; w_ov2] /\ fd_overload w_impl = false /\
+  map (fun s => lex LS0 (sig_str s)) (map sig_of [w_ov1; w_ov2]) =
+  [[TL; TName [97%N]; TColon; TExpr (EName [105; 110; 116]%N); TR];
+   [TL; TName [97%N]; TEq; TExpr (w_D 1); TComma; TSlash; TR; TArrow; TExpr (EName [115%N])]].
+Proof.
+  split; [repeat constructor|]. split; [reflexivity|]. split; [repeat constructor|]. split; [reflexivity|].
+  vm_compute. reflexivity.
+Qed.
+
+(* in-place partial unstringing on failure: "int" | X["1 +"]  is handed back as  int | X["1 +"] *)
+Example C14_unstring_partial_witness :
+  let e := ENode 7 [EStr 1 (Some (EName [105; 110; 116]%N)); ESub (EName [88%N]) (EStr 2 None)] in
+  bad_string e /\
+  unstring_annotation e = (ENode 7 [EName [105; 110; 116]%N; ESub (EName [88%N]) (EStr 2 None)], true).
+Proof.
+  split.
+  - apply B_node. apply Exists_cons_tl. apply Exists_cons_hd.
+    apply B_sub_s with (EName [88%N]); [constructor | reflexivity | constructor].
+  - vm_compute. reflexivity.
+Qed.
